@@ -169,7 +169,10 @@ func PluginSet(proto string, sh *plugins.Shared) plugin.PluginSet {
 	if proto == "grpc" {
 		return plugin.PluginSet{PluginName: &plugins.GRPC{Sh: sh}}
 	}
-	return plugin.PluginSet{PluginName: &plugins.NetRPC{Sh: sh}}
+	// several names for the same implementation: concurrent dispenses use
+	// different names, which makes each server object attributable
+	return plugin.PluginSet{PluginName: &plugins.NetRPC{Sh: sh},
+		"cmd1": &plugins.NetRPC{Sh: sh, Name: "cmd1/"}, "cmd2": &plugins.NetRPC{Sh: sh, Name: "cmd2/"}, "cmd3": &plugins.NetRPC{Sh: sh, Name: "cmd3/"}}
 }
 
 // ServeConfig builds the plugin side.
